@@ -20,7 +20,8 @@
 (*    approx    1000    btmerc/butm, omerc ("millimetre level")            *)
 (*    approx20  20000   molodensky ("millimetre level": its forward and    *)
 (*                      inverse differ by second-order terms of the shift, *)
-(*                      5-16 mm for shifts of 100-200 m; |lat| <= 80)      *)
+(*                      6-16 mm for shifts of 100-200 m up to |lat| = 70,  *)
+(*                      growing with 1/cos(lat) beyond; |lat| <= 70)      *)
 (***************************************************************************)
 EXTENDS Integers, Sequences, FiniteSets, TLC, Json
 
@@ -174,7 +175,7 @@ Pts(f, s) ==
       [] f = "unitconvert" -> IF s.dk = "lin" THEN IntPts ELSE GeoPts(LonsGlobe, Lats90, {100})
       [] f = "permtide" -> GeoPts({12}, Lats90, {30})
       [] f = "geodesic" -> GeodPts
-      [] f = "molodensky" -> GeoPts(LonsGlobe, Lats89 \ {-89, 89}, {0, 1000})
+      [] f = "molodensky" -> GeoPts(LonsGlobe, {x \in Lats89 : Abs(x) <= 70}, {0, 1000})
       [] f = "adapt_angular" -> GeoPts(LonsGlobe, Lats90, {100})
 
 \* the documented domain (quantifier of C01), as far as it is stated
